@@ -2,6 +2,7 @@
    difference function `diff` (Rfc7396.v), which the correspondence ties to CreateMergePatch's
    output on every run. *)
 From JP Require Import Bytes Json Rfc7396 JsonFacts MergeFacts.
+From JP Require Import Text Strings Den ImplMerge Codec CreateFacts.
 
 (* applying the difference of A and B to A per RFC 7396 gives B, whenever B has no null member *)
 Theorem C03_roundtrip : forall a b,
@@ -56,4 +57,169 @@ Example C03_nonvacuous :
   onodup a && onodup b && no_null_member b && is_obj a && is_obj b = true /\
   diff a b = OObj [(B "a", OObj [(B "x", ONum (B "1")); (B "w", OArr [ONum (B "12345678901234567890123")]); (B "y", ONull)]); (B "k", ONull)] /\
   jeq (merge_patch a (diff a b)) b = true.
+Proof. vm_compute. repeat split; reflexivity. Qed.
+
+(* ---- the model of CreateMergePatch (ImplMerge.api_create) itself ----
+   tsb t: every string body of the tree is one the scanner accepts (Codec.v); tnodup t: no duplicate
+   member names after decoding. *)
+
+(* on two objects the model prints the sorted, HTML-escaped encoding of the reference difference *)
+Theorem C03_model_is_diff : forall a b ams bms,
+  parse a = Some (TObj ams) -> parse b = Some (TObj bms) ->
+  api_create a b = MOut (print true (encode_sorted (diff (den (TObj ams)) (den (TObj bms))))).
+Proof. exact api_create_obj. Qed.
+Print Assumptions C03_model_is_diff.
+
+(* that encoding decodes back to the value it encodes, members reordered *)
+Theorem C03_encoding_roundtrip : forall j, onodup j = true -> outf8 j ->
+  onodup (den (encode_sorted j)) = true /\ jeq (den (encode_sorted j)) j = true.
+Proof. exact encode_sorted_den. Qed.
+Print Assumptions C03_encoding_roundtrip.
+
+Theorem C03_encoding_wellformed : forall j, outf8 j -> tsb (encode_sorted j).
+Proof. exact encode_sorted_tsb. Qed.
+Print Assumptions C03_encoding_wellformed.
+
+Theorem C03_decoded_is_utf8 : forall t, tsb t -> outf8 (den t).
+Proof. exact tsb_outf8. Qed.
+Print Assumptions C03_decoded_is_utf8.
+
+(* end to end on two objects: the output tree P is well formed, decodes to the reference difference,
+   applying it to A per RFC 7396 gives B (when B has no null member), and it is {} exactly when
+   A and B are equal *)
+Theorem C03_model_correct : forall a b ams bms,
+  parse a = Some (TObj ams) -> parse b = Some (TObj bms) ->
+  tnodup (TObj ams) = true -> tnodup (TObj bms) = true -> tsb (TObj ams) -> tsb (TObj bms) ->
+  exists p,
+    api_create a b = MOut (print true p) /\
+    p = encode_sorted (diff (den (TObj ams)) (den (TObj bms))) /\
+    tsb p /\ tnodup p = true /\
+    jeq (den p) (diff (den (TObj ams)) (den (TObj bms))) = true /\
+    (no_null_member (den (TObj bms)) = true -> jeq (merge_patch (den (TObj ams)) (den p)) (den (TObj bms)) = true) /\
+    (p = TObj [] <-> jeq (den (TObj ams)) (den (TObj bms)) = true).
+Proof. exact api_create_correct. Qed.
+Print Assumptions C03_model_correct.
+
+(* two arrays of objects of equal length: element by element *)
+Theorem C03_model_arrays : forall a b la lb,
+  parse a = Some (TArr la) -> parse b = Some (TArr lb) -> length la = length lb ->
+  Forall (fun x => is_obj (den x) = true /\ tnodup x = true /\ tsb x) la ->
+  Forall (fun x => is_obj (den x) = true /\ tnodup x = true /\ tsb x) lb ->
+  exists ps,
+    api_create a b = MOut (print true (TArr ps)) /\
+    Forall2 (fun p xy =>
+               p = encode_sorted (diff (den (fst xy)) (den (snd xy))) /\
+               tsb p /\ tnodup p = true /\
+               (no_null_member (den (snd xy)) = true ->
+                jeq (merge_patch (den (fst xy)) (den p)) (den (snd xy)) = true) /\
+               (p = TObj [] <-> jeq (den (fst xy)) (den (snd xy)) = true))
+            ps (combine la lb).
+Proof. exact api_create_arr_correct. Qed.
+Print Assumptions C03_model_arrays.
+
+(* what the array case computes in general (create_elems: element-wise create_object, as far as both
+   lists go; as_obj reads null as the empty object) *)
+Theorem C03_model_arrays_exact : forall a b la lb,
+  parse a = Some (TArr la) -> parse b = Some (TArr lb) ->
+  api_create a b =
+  if (length la =? length lb)%nat then
+    match create_elems la lb with
+    | Some ps => MOut (print true (TArr ps))
+    | None => MErr MBadDoc
+    end
+  else MErr MBadDoc.
+Proof. exact api_create_arr. Qed.
+Print Assumptions C03_model_arrays_exact.
+
+(* every member of the output tree (looked up by decoded name): a null for a member of A that B
+   lacks, or the encoding of B's own value, or the output for two nested objects; and that member
+   differs between A and B *)
+Theorem C03_output_mentions : forall ams bms,
+  tnodup (TObj ams) = true -> tnodup (TObj bms) = true -> tsb (TObj ams) -> tsb (TObj bms) ->
+  forall pms k v,
+  encode_sorted (diff (den (TObj ams)) (den (TObj bms))) = TObj pms -> tget k pms = Some v ->
+  ~ lookup_rel (fun x y => jeq x y = true) (aget k (members_of (den (TObj ams)))) (aget k (members_of (den (TObj bms)))) /\
+  (   (aget k (members_of (den (TObj bms))) = None /\ v = TNull /\ aget k (members_of (den (TObj ams))) <> None)
+   \/ (exists bv, aget k (members_of (den (TObj bms))) = Some bv /\ v = encode_sorted bv)
+   \/ (exists av bv, aget k (members_of (den (TObj ams))) = Some av /\ aget k (members_of (den (TObj bms))) = Some bv /\
+                     is_obj av = true /\ is_obj bv = true /\ v = encode_sorted (diff av bv))).
+Proof. exact create_output_mentions. Qed.
+Print Assumptions C03_output_mentions.
+
+Theorem C03_output_removed_is_null : forall ams bms,
+  tnodup (TObj ams) = true -> tnodup (TObj bms) = true -> tsb (TObj ams) -> tsb (TObj bms) ->
+  forall pms k,
+  encode_sorted (diff (den (TObj ams)) (den (TObj bms))) = TObj pms ->
+  aget k (members_of (den (TObj ams))) <> None -> aget k (members_of (den (TObj bms))) = None ->
+  tget k pms = Some TNull.
+Proof. exact create_output_removed. Qed.
+Print Assumptions C03_output_removed_is_null.
+
+(* number literals are carried over unchanged *)
+Theorem C03_output_number_verbatim : forall ams bms,
+  tnodup (TObj ams) = true -> tnodup (TObj bms) = true -> tsb (TObj ams) -> tsb (TObj bms) ->
+  forall pms k lit,
+  encode_sorted (diff (den (TObj ams)) (den (TObj bms))) = TObj pms ->
+  aget k (members_of (den (TObj bms))) = Some (ONum lit) -> aget k (members_of (den (TObj ams))) <> Some (ONum lit) ->
+  tget k pms = Some (TNum lit).
+Proof. exact create_output_number_verbatim. Qed.
+Print Assumptions C03_output_number_verbatim.
+
+(* at any depth: every number literal in the output tree is a number literal of B *)
+Theorem C03_output_numbers_from_B : forall a b lit,
+  In lit (tnums (encode_sorted (diff a b))) -> In lit (onums b).
+Proof. exact create_output_numbers. Qed.
+Print Assumptions C03_output_numbers_from_B.
+
+(* merge_patch respects structural equality of patches (used to transport the round trip) *)
+Theorem C03_merge_respects_jeq : forall p p' d,
+  onodup d = true -> onodup p = true -> onodup p' = true -> jeq p p' = true ->
+  jeq (merge_patch d p) (merge_patch d p') = true.
+Proof. exact merge_patch_jeq_patch. Qed.
+Print Assumptions C03_merge_respects_jeq.
+
+(* a null root is read as the empty object *)
+Theorem C03_null_root_is_empty_object : forall a b ta tb oa ob,
+  parse a = Some ta -> parse b = Some tb -> as_obj ta = Some oa -> as_obj tb = Some ob ->
+  api_create a b = MOut (print true (encode_sorted (diff oa ob))).
+Proof. exact api_create_objlike. Qed.
+Print Assumptions C03_null_root_is_empty_object.
+
+(* rejections *)
+Theorem C03_rejects_unparsable : forall a b, parse a = None \/ parse b = None -> api_create a b = MErr MBadDoc.
+Proof. exact api_create_unparsable. Qed.
+Print Assumptions C03_rejects_unparsable.
+
+Theorem C03_rejects_array_with_nonarray : forall a b ta tb,
+  parse a = Some ta -> parse b = Some tb -> is_tarr ta <> is_tarr tb -> api_create a b = MErr MBadTypes.
+Proof. exact api_create_mixed. Qed.
+Print Assumptions C03_rejects_array_with_nonarray.
+
+Theorem C03_rejects_nonobject : forall a b ta tb,
+  parse a = Some ta -> parse b = Some tb -> is_tarr ta = false -> is_tarr tb = false ->
+  as_obj ta = None \/ as_obj tb = None -> api_create a b = MErr MBadDoc.
+Proof. exact api_create_nonobject. Qed.
+Print Assumptions C03_rejects_nonobject.
+
+Theorem C03_rejects_unequal_lengths : forall a b la lb,
+  parse a = Some (TArr la) -> parse b = Some (TArr lb) -> length la <> length lb ->
+  api_create a b = MErr MBadDoc.
+Proof. exact api_create_arr_length. Qed.
+Print Assumptions C03_rejects_unequal_lengths.
+
+Theorem C03_rejects_nonobject_element : forall a b la lb i x y,
+  parse a = Some (TArr la) -> parse b = Some (TArr lb) ->
+  nth_error la i = Some x -> nth_error lb i = Some y -> as_obj x = None \/ as_obj y = None ->
+  api_create a b = MErr MBadDoc.
+Proof. exact api_create_arr_bad_elem. Qed.
+Print Assumptions C03_rejects_nonobject_element.
+
+Example C03_model_nonvacuous :
+  let a := B "{""a"":{""x"":1.0,""y"":2},""k"":""s<"",""n"":1e400}" in
+  let b := B "{""n"":1e400,""a"":{""x"":1,""w"":[12345678901234567890123]},""z"":""<>""}" in
+  api_create a b = MOut (B "{""a"":{""w"":[12345678901234567890123],""x"":1,""y"":null},""k"":null,""z"":""\u003c\u003e""}") /\
+  api_create (B "[{""a"":1},null]") (B "[{""a"":2},{""b"":null}]") = MOut (B "[{""a"":2},{""b"":null}]") /\
+  api_create (B "[{""a"":1}]") (B "{}") = MErr MBadTypes /\
+  api_create (B "3") (B "{}") = MErr MBadDoc /\
+  api_create (B "[{},{}]") (B "[{}]") = MErr MBadDoc.
 Proof. vm_compute. repeat split; reflexivity. Qed.
